@@ -96,3 +96,10 @@ claim(
     "Trusted: the closed-form / brute-force oracles in acnverif/props/c08.py; invocation at period 0; key near-ties (1e-6), margins within 1e-9 of zero and levels within 1e-9 of a float bound are discarded and counted.",
     "DESIGN.md 3/C08",
 )
+claim(
+    "C12",
+    "Hypothesis rule-based state machine (op log = replay file) over ChargingNetwork with generated Current expression trees vs. a name-keyed model in exact rational arithmetic; alignment invariant after every step; subset/time queries vs. the model's phasor sums; rejected operations must leave a bit-identical snapshot",
+    "Exploration: 400 (quick) / 40 000 (thorough) generated histories of up to 25 operations (register, add, failing add on an unregistered station, remove, update with/without rename, unknown names, subset and time-index queries) with expression trees of depth <= 3 over dict/str/list/Series leaves. After every step matrix rows, limits and names are aligned with the model (row positions read back, columns in registration order, no NaN), queries return rows in network order and the requested columns, is_feasible follows the aligned limits, late registration and rejected operations change nothing.",
+    "Trusted: the rational model in acnverif/props/c12.py; dyadic coefficients; explicit unique names (auto-naming is not modelled).",
+    "DESIGN.md 3/C12",
+)
